@@ -372,7 +372,20 @@ def path_conds(node, stop=None):
                 if c.k == 'IfStmt' and c.child('else') is None and _leaves(c.child('then')):
                     out.append((c.child('cond'), False))
         prev, x = x, x.parent
-    return out
+    # `!c` under polarity p is `c` under polarity not p
+    from .flow import _strip_casts
+    res = []
+    for cnd, pol in out:
+        cur = cnd
+        while True:
+            c = _strip_casts(cur)
+            if c is not None and c.k == 'UnaryOperator' and c.op == '!' and c.child('sub') is not None:
+                cur = c.child('sub')        # (the operand keeps its own conversion, e.g. pointer to bool)
+                pol = not pol
+            else:
+                break
+        res.append((cur, pol))
+    return res
 
 
 def path_atoms_with_guards(node, stop=None):
